@@ -4,11 +4,11 @@ import (
 	"github.com/scrapli/scrapligo/transport"
 )
 
-// Login is a minimal telnet-style login device on top of a Pipe. It implements
+// C05Login is a minimal telnet-style login device on top of a Pipe. It implements
 // transport.InChannelAuthImplementation (telnet flavour), so channel.Open runs
 // AuthenticateTelnet against it: "login:" -> user name (echoed) -> "Password:" -> password (not
 // echoed) -> banner and prompt; afterwards it is a plain echoing CLI.
-type Login struct {
+type C05Login struct {
 	*Pipe
 	User, Pass string
 	Prompt     string
@@ -18,26 +18,26 @@ type Login struct {
 	Lines      []string
 }
 
-// NewLogin builds the device; call Start before the driver opens.
-func NewLogin(user, pass string) *Login {
-	l := &Login{Pipe: NewPipe(), User: user, Pass: pass, Prompt: "router#"}
+// NewC05Login builds the device; call Start before the driver opens.
+func NewC05Login(user, pass string) *C05Login {
+	l := &C05Login{Pipe: NewPipe(), User: user, Pass: pass, Prompt: "router#"}
 	l.Pipe.OnWrite = l.onWrite
 	return l
 }
 
 // GetInChannelAuthType makes the channel perform in-channel telnet authentication.
-func (l *Login) GetInChannelAuthType() transport.InChannelAuthType {
+func (l *C05Login) GetInChannelAuthType() transport.InChannelAuthType {
 	return transport.InChannelAuthTelnet
 }
 
 // Start emits the login prompt.
-func (l *Login) Start() {
+func (l *C05Login) Start() {
 	l.Mu.Lock()
 	l.Emit([]byte("login:"))
 	l.Mu.Unlock()
 }
 
-func (l *Login) onWrite(b []byte) {
+func (l *C05Login) onWrite(b []byte) {
 	for _, ch := range b {
 		if ch != '\n' {
 			l.line = append(l.line, ch)
